@@ -597,12 +597,24 @@ pub fn classify_cut(body: &[u8], spans: &[Span], cut: usize) -> CutClass {
     for s in spans {
         match &s.kind {
             SpanKind::Comment | SpanKind::Bogus | SpanKind::Doctype | SpanKind::CData => {
-                if s.start < cut && (cut < s.end || (s.open_ended && cut == s.end)) {
+                let inner_has_markup = body[(s.start + 1).min(body.len())..s.end.min(body.len())].contains(&b'<');
+                if s.start < cut && (cut < s.end || (s.open_ended && cut == s.end)) && (inner_has_markup || s.open_ended) {
                     return CutClass::Context;
                 }
             }
             SpanKind::RawRegion(_) => {
-                if s.start <= cut && (cut < s.end || (s.open_ended && cut == s.end)) {
+                // the context that a chunk boundary loses is the raw-text *content*: a cut inside the closing tag
+                // itself (`</ti|tle>`) is handled by the filter (the text holding the `<` is kept back until the
+                // next chunk), so it must not be attributed to the known finding
+                let content_end = spans
+                    .iter()
+                    .find(|c| matches!(c.kind, SpanKind::RawClose) && c.start >= s.start && c.start <= s.end)
+                    .map(|c| c.start)
+                    .unwrap_or(s.end);
+                // ... and losing the context only matters when the content looks like markup to a tokenizer that
+                // has forgotten it is inside raw text: content without any '<' is re-tokenised as the same bytes
+                let content_has_markup = body[s.start.min(body.len())..content_end.min(body.len())].contains(&b'<');
+                if s.start <= cut && (cut < s.end || (s.open_ended && cut == s.end)) && (content_has_markup || (s.open_ended && content_end == s.end)) {
                     return CutClass::Context;
                 }
             }
